@@ -1167,6 +1167,23 @@ fn run(op_full: &str, a: &[&str]) -> String {
                 Err(_) => format!("err Other {}", hex(text.as_bytes())),
             }
         }
+        "reparse_json_path" => match jsonb::jsonpath::parse_json_path(&unhex(a[0])) {
+            Ok(jp) => {
+                let mut s1 = String::new();
+                show_paths(&jp.paths, &mut s1);
+                let text = format!("{}", jp);
+                let s2 = match jsonb::jsonpath::parse_json_path(text.as_bytes()) {
+                    Ok(jp2) => {
+                        let mut s = String::new();
+                        show_paths(&jp2.paths, &mut s);
+                        s
+                    }
+                    Err(_) => "err".to_string(),
+                };
+                format!("ok {} {}", s1, s2)
+            }
+            Err(_) => "err Other".into(),
+        },
         "print_parse_key_paths" => {
             let kp = jsonb::keypath::KeyPaths { paths: parse_keypaths(a[0]) };
             let text = format!("{}", kp);
